@@ -218,6 +218,150 @@ def gen_cases(rng, tier):
     return cases
 
 
+# ------------------------------------------------------------------ object-reuse histories
+def rand_value(rng, f):
+    """an in-width value for field f of a packet"""
+    if f == 0:
+        return rng.random() < 0.5
+    if f == DATA:
+        return rand_data(rng)
+    return pick(rng, WIDTH[f])
+
+
+def gen_histories(rng, tier):
+    """Histories on ONE object.  hist_enc: encode / assign a field / change the bytearray payload in place /
+    encode again.  hist_dec: decode / modify the decoded object / decode another datagram with the same or a
+    different header.  Every step is judged on its own against the CURRENT values (the codec has no memory)."""
+    out = []
+    scale = 1 if tier == "quick" else 10
+    # -- encode, assign field f, encode again -- every field, both classes, bytes and bytearray payload
+    for rep in range(scale):
+        for kind, fields in (("sdp", list(range(0, 11))), ("scp", list(range(0, 16)))):
+            for f in fields:
+                for mutable in (False, True):
+                    q = rand_packet(rng, 3)
+                    v = rand_value(rng, f)
+                    while v == q[f]:
+                        v = rand_value(rng, f)
+                    ops = [["enc", 3], ["set", f, v, mutable], ["enc", 3]]
+                    if rng.random() < 0.5:             # and back, and a second field
+                        g = rng.choice(fields)
+                        ops += [["set", g, rand_value(rng, g), mutable], ["enc", 3]]
+                    out.append(["hist_enc", kind, q if kind == "scp" else q[:11], mutable, ops])
+        # -- payload changed in place between two encodings
+        for kind in ("sdp", "scp"):
+            for k in range(4):
+                q = rand_packet(rng, k)
+                q[DATA] = [rng.randint(0, 255) for _ in range(rng.randint(3, 9))]
+                n = len(q[DATA])
+                ops = [["enc", k], ["poke", rng.randrange(n), rng.randint(0, 255)], ["enc", k],
+                       ["refill", [rng.randint(0, 255) for _ in range(n)]], ["enc", k],
+                       ["trunc", rng.randrange(n)], ["enc", k],
+                       ["extend", [rng.randint(0, 255) for _ in range(rng.randint(1, 6))]], ["enc", k]]
+                out.append(["hist_enc", kind, q if kind == "scp" else q[:11], True, ops])
+    # -- random histories
+    for j in range(250 * scale):
+        kind = rng.choice(["sdp", "scp", "scp"])
+        mutable = rng.random() < 0.5
+        q = rand_packet(rng)
+        ops = [["enc", None]]
+        ln = len(q[DATA])
+        for _ in range(rng.randint(2, 7)):
+            r = rng.random()
+            if r < 0.45:
+                ops.append(["enc", None])
+            elif r < 0.8 or not mutable:
+                f = rng.choice(range(11) if kind == "sdp" else range(16))
+                if f >= 13 and rng.random() < 0.3:
+                    ops.append(["set", f, None, mutable])
+                else:
+                    v = rand_value(rng, f)
+                    ops.append(["set", f, v, mutable])
+                    if f == DATA:
+                        ln = len(v)
+            elif ln and rng.random() < 0.6:
+                ops.append(["poke", rng.randrange(ln), rng.randint(0, 255)])
+            elif ln and rng.random() < 0.5:
+                ln = rng.randrange(ln)
+                ops.append(["trunc", ln])
+            else:
+                ext = [rng.randint(0, 255) for _ in range(rng.randint(1, 5))]
+                ln += len(ext)
+                ops.append(["extend", ext])
+        ops.append(["enc", None])
+        out.append(["hist_enc", kind, q if kind == "scp" else q[:11], mutable, ops])
+    # -- decode A, modify the object decoded from A (field f), decode B with the same header, C with another
+    def datagram(hdr, kind):
+        q = rand_packet(rng)
+        q[:10] = hdr
+        return (layout_scp(q), rng.choice([n_present(q), 3, None, 0])) if kind == "scp" else (layout_sdp(q[:11]), None)
+    for rep in range(scale):
+        for kind in ("sdp", "scp"):
+            for f in list(range(0, 11)) + ["turn"] + ([11, 12, 13] if kind == "scp" else []):
+                hdr = rand_packet(rng)[:10]
+                other = rand_packet(rng)[:10]
+                steps = []
+                for h in (hdr,):
+                    bs, n = datagram(h, kind)
+                    steps.append(["dec", kind, bs, n])
+                steps.append(["turn", 0] if f == "turn" else ["mod", 0, f, rand_value(rng, f)])
+                k2 = rng.choice(["sdp", "scp"])
+                for h, kk in ((hdr, kind), (hdr, k2), (other, kind), (hdr, kind)):
+                    bs, n = datagram(h, kk)
+                    steps.append(["dec", kk, bs, n])
+                out.append(["hist_dec", steps])
+    for j in range(150 * scale):
+        pool = [rand_packet(rng)[:10] for _ in range(rng.randint(1, 3))]
+        steps, nobj = [], 0
+        for _ in range(rng.randint(3, 9)):
+            if nobj == 0 or rng.random() < 0.55:
+                kind = rng.choice(["sdp", "scp"])
+                bs, n = datagram(rng.choice(pool), kind)
+                if rng.random() < 0.05:
+                    bs = bs[:rng.randint(0, 13)]
+                steps.append(["dec", kind, bs, n])
+                nobj += 1
+            elif rng.random() < 0.25:
+                steps.append(["turn", rng.randrange(nobj)])
+            else:
+                f = rng.randrange(16)
+                steps.append(["mod", rng.randrange(nobj), f, rand_value(rng, f)])
+        bs, n = datagram(rng.choice(pool), "scp")
+        steps.append(["dec", "scp", bs, n])
+        out.append(["hist_dec", steps])
+    return out
+
+
+def history_steps(h):
+    """the judged steps of a history as ordinary cases: what a codec without memory is asked at each step"""
+    out = []
+    if h[0] == "hist_dec":
+        for st in h[1]:
+            if st[0] == "dec":
+                out.append(["dec_scp", st[2], st[3]] if st[1] == "scp" else ["dec_sdp", st[2]])
+        return out
+    cur = [list(x) if isinstance(x, list) else x for x in h[2]]
+    for op in h[4]:
+        if op[0] == "enc":
+            snap = [list(x) if isinstance(x, list) else x for x in cur]
+            if h[1] == "scp":
+                op[1] = n_present(cur) if op[1] is None else op[1]
+                out.append(["enc_scp", snap, op[1]])
+            else:
+                out.append(["enc_sdp", snap])
+        elif op[0] == "set":
+            cur[op[1]] = list(op[2]) if op[1] == DATA else op[2]
+        elif op[0] == "poke":
+            cur[DATA][op[1]] = op[2]
+        elif op[0] == "trunc":
+            del cur[DATA][op[1]:]
+        elif op[0] == "refill":
+            cur[DATA][:] = op[1]
+        elif op[0] == "extend":
+            cur[DATA].extend(op[1])
+    return out
+
+
 def ports_of(v):
     """16-bit counter -> (dest_port, dest_cpu, src_port, src_cpu)"""
     return v >> 13, (v >> 8) & 31, (v >> 5) & 7, v & 31
@@ -472,17 +616,20 @@ def run(chk, args):
     if args.replay:
         rp = json.load(open(args.replay))
         items = [x["replay"] for x in rp.get("failures", []) + rp.get("no_longer_checks", []) if "replay" in x]
-        cases = []
+        cases, hists = [], []
         for r in items:
             if "partner" in r:
                 cases.append(dict(case=r["partner"], stream="replay"))
                 cases.append(dict(case=r["case"], stream="replay", iso=(r["field"], len(cases) - 1)))
+            elif "history" in r:
+                hists.append(r["history"])
             elif "case" in r:
                 cases.append(dict(case=r["case"], stream="replay"))
         sweeps = []
     else:
         cases = gen_cases(chk.rng, chk.tier)
         sweeps = sweep_cases(chk.rng, chk.tier)
+        hists = gen_histories(chk.rng, chk.tier)
     corpus = os.path.join(lib.VERIF, "corpus", "C15.json")
     if os.path.exists(corpus):
         cases += [dict(case=c, stream="corpus") for c in json.load(open(corpus))]
@@ -490,10 +637,24 @@ def run(chk, args):
     flat = [x["case"] for x in cases]
     chunks = [flat[i:i + 4000] for i in range(0, len(flat), 4000)]
     schunks = [sweeps[i:i + 4] for i in range(0, len(sweeps), 4)]
-    res = chk.impl_parallel("impl_c15.py", chunks + schunks)
+    steps = [history_steps(h) for h in hists]        # (also resolves the n_args of the enc steps in place)
+    hchunks = [hists[i:i + 400] for i in range(0, len(hists), 400)]
+    res = chk.impl_parallel("impl_c15.py", chunks + schunks + hchunks)
     outs = [o for part in res[:len(chunks)] for o in part]
-    souts = [o for part in res[len(chunks):] for o in part]
+    souts = [o for part in res[len(chunks):len(chunks) + len(schunks)] for o in part]
+    houts = [o for part in res[len(chunks) + len(schunks):] for o in part]
     reported = set()
+    # every judged step of a history becomes an ordinary case: same oracle, same model (a pure function of the
+    # current field values / of the datagram), remembered together with the history that led to it
+    for h, st, ho in zip(hists, steps, houts):
+        chk.count("histories:" + h[0])
+        if ho[0] != "hist" or len(ho[1]) != len(st):
+            chk.fail_input("reuse-" + str(ho[0]), "history did not run to completion: %r" % (ho,), dict(history=h))
+            continue
+        for i, (vc, o) in enumerate(zip(st, ho[1])):
+            cases.append(dict(case=vc, stream="reuse-" + h[0][5:], hist=(h, i)))
+            outs.append(o)
+    flat = [x["case"] for x in cases]
 
     def report(hit, replay):
         if hit[0] in reported or len(reported) >= 25:      # one concrete input per kind of failure
@@ -514,7 +675,11 @@ def run(chk, args):
                   (c[0] == "dec_scp" and len(c[1]) >= 14) or (c[0] == "dec_sdp" and len(c[1]) >= 10)
         chk.note_case(c, nontriv)
         hit = oracle(c, o)
-        if hit:
+        if hit and "hist" in x:
+            report(("reuse-" + hit[0], "step %d of a history on one object (judged on the current values): %s"
+                    % (x["hist"][1], hit[1])),
+                   dict(history=x["hist"][0], step=x["hist"][1], case=c, observed=o, stream=x["stream"]))
+        elif hit:
             report(hit, dict(case=c, observed=o, stream=x["stream"]))
         if "iso" in x:
             f, j = x["iso"]
@@ -576,5 +741,9 @@ def run(chk, args):
         "decode), 0-3 arguments x payload lengths 0-13, random in-width SDP/SCP packets with boundary-biased "
         "fields and payloads 0-40 bytes, one-field-changed partners for isolation; malformed stream: fields "
         "outside their width, non-prefix arguments; decoding of random byte strings of every length 0-30 (and "
-        "40, 64, 300) with n_args -1..7 and the default. non-trivial = encoding of an in-width packet that "
+        "40, 64, 300) with n_args -1..7 and the default; object-reuse histories on ONE packet object (encode / "
+        "assign a field, every SDP and SCP field, on SDPPacket and SCPPacket, bytes and bytearray payload / "
+        "change the bytearray in place: poke, refill, truncate, extend / encode again; decode / modify or turn "
+        "around the decoded object / decode datagrams with the same and with a different header), every step "
+        "judged against the current values. non-trivial = encoding of an in-width packet that "
         "succeeds, or decoding of a string holding a complete header; distinct by hash of the whole case")
